@@ -137,8 +137,8 @@ trait SkipElem: MaybeNan + Clone + PartialEq + std::fmt::Debug + 'static where S
 }
 impl SkipElem for f64 {
     const NAME: &'static str = "f64";
-    fn alpha() -> Vec<Self> { vec![f64::NAN, -2.0, 0.0, 5.0] }
-    fn key(&self) -> Option<i64> { if self.is_nan() { None } else { Some((*self * 2.0) as i64) } }
+    fn alpha() -> Vec<Self> { vec![f64::NAN, -2.0, f64::INFINITY, 5.0, f64::NEG_INFINITY] }
+    fn key(&self) -> Option<i64> { if f64::is_nan(*self) { None } else if *self == f64::INFINITY { Some(1 << 40) } else if *self == f64::NEG_INFINITY { Some(-(1 << 40)) } else { Some((*self * 2.0) as i64) } }
 }
 impl SkipElem for Option<i32> {
     const NAME: &'static str = "Option<i32>";
@@ -180,7 +180,7 @@ fn skip_one<T: SkipElem>(cfg: &Cfg, rep: &mut Report, rng: &mut Lcg) where T::No
                     let mut n_visit = 0usize; v.visit_skipnan(|_| n_visit += 1);
                     let mut seen = vec![];
                     v.indexed_fold_skipnan((), |_, (idx, _)| { seen.push(format!("{:?}", idx)); });
-                    let mut want_idx: Vec<String> = v.indexed_iter().filter(|(_, x)| !x.is_nan()).map(|(i, _)| format!("{:?}", i)).collect();
+                    let mut want_idx: Vec<String> = v.indexed_iter().filter(|(_, x)| x.key().is_some()).map(|(i, _)| format!("{:?}", i)).collect();
                     seen.sort(); want_idx.sort();
                     if n_fold != present.len() || n_visit != present.len() || seen != want_idx { bad.push("fold/visit/indexed_fold do not see each remaining element exactly once".into()); }
                     bad
@@ -275,8 +275,8 @@ impl SkipQ for Option<i32> {
 }
 impl SkipQ for f64 {
     type Inner = noisy_float::types::N64; const NAME: &'static str = "f64";
-    fn alpha() -> Vec<Self> { vec![f64::NAN, 0.5, 1.5, 2.25, -7.125] }
-    fn inner(&self) -> Option<Self::Inner> { if self.is_nan() { None } else { Some(n64(*self)) } }
+    fn alpha() -> Vec<Self> { vec![f64::NAN, 0.5, f64::INFINITY, 2.25, f64::NEG_INFINITY] }
+    fn inner(&self) -> Option<Self::Inner> { if f64::is_nan(*self) { None } else { Some(n64(*self)) } }
     fn wrap(x: Option<Self::Inner>) -> Self { match x { None => f64::NAN, Some(v) => v.raw() } }
 }
 
@@ -299,7 +299,7 @@ where T::NotNan: Ord + Clone + num_traits::NumOps + num_traits::FromPrimitive + 
                     let mut a = Array1::from(lane.clone());
                     let got = guarded(|| a.quantile_axis_skipnan_mut(Axis(0), n64(q), &$strat));
                     match (want, got) {
-                        (Ok(w), Ok(Ok(g))) => { let g0 = g.into_scalar(); let same = g0 == w || (g0.is_nan() && w.is_nan()); if !same { rep.fail_p(cfg, &case, "C14", "quantile_axis_skipnan_mut differs from the plain quantile of the filtered lane", json!({"strategy": $nm, "got": format!("{:?}", g0), "plain": format!("{:?}", w)})); } }
+                        (Ok(w), Ok(Ok(g))) => { let g0 = g.into_scalar(); let same = g0 == w || (g0.inner().is_none() && w.inner().is_none()); if !same { rep.fail_p(cfg, &case, "C14", "quantile_axis_skipnan_mut differs from the plain quantile of the filtered lane", json!({"strategy": $nm, "got": format!("{:?}", g0), "plain": format!("{:?}", w)})); } }
                         (Ok(w), other) => rep.fail_p(cfg, &case, "C14", "quantile_axis_skipnan_mut fails where the plain quantile of the filtered lane succeeds", json!({"strategy": $nm, "plain": format!("{:?}", w), "got": format!("{:?}", other.map(|r| r.map(|_| ())))})),
                         (Err(_), _) => {} // the plain operation itself fails on this lane (recorded findings of C01): nothing to compare
                     }
